@@ -426,15 +426,26 @@ func constantInt2(l *Loaded, rel, name string) (int64, bool) {
 }
 
 func checkC04(c *Check) {
-	c.Explanation = "Code-shape conditions of marketplace lifecycle consistency, decided for every state assignment, handler path and call site: (R1) every assignment to Order/Bid/Lease/Group/Deployment.State is extracted with the set of prior states admitted by its dominating guards (in the function and at every resolved call site one level up, incl. the filter-then-act idiom and Validate* helpers) and must be included in the lifecycle's transition table; terminal states are absorbing; new records start in their initial state; (R2) each Msg handler / escrow hook passes, on every nil-error path, through the full set of record updates its action implies (loops over zero elements discharge their body); (R3) lease creation is dominated by bid-open, order-open, group-open; a new order is stored only when every earlier order of the group is closed and the key is free; (R4) lease price = price of the matched bid = escrow payment rate; bid price = message price that passed the not-above-order-maximum guard; (R5) no record fetched before a call that can fire escrow hooks on the deployment account is used for a decision or write after it; (R6) cascade iterator callbacks never stop the iteration early."
+	c.Explanation = "Code-shape conditions of marketplace lifecycle consistency, decided for every state assignment, handler path and call site: (R1) every assignment to Order/Bid/Lease/Group/Deployment.State is extracted with the set of prior states admitted by its dominating guards (in the function and at every resolved call site one level up, incl. the filter-then-act idiom and Validate* helpers) and must be included in the lifecycle's transition table; terminal states are absorbing; new records start in their initial state; (R2) each Msg handler / escrow hook passes, on every nil-error path, through the full set of record updates its action implies (loops over zero elements discharge their body); (R3) lease creation is dominated by bid-open, order-open, group-open; a new order is stored only when every earlier order of the group is closed and the key is free; (R4) lease price = price of the matched bid = escrow payment rate; bid price = message price that passed the not-above-order-maximum guard; (R5) no record fetched before a call that can fire escrow hooks on the deployment account is used for a decision or write after it; (R6) cascade iterator callbacks never stop the iteration early. A function that assigns a terminal state refuses no live state by its own guards; the ids' Equals cover every field."
 	c.NotDecided = "the global store-wide invariant over arbitrary histories (e.g. 'matched iff exactly one active lease' as a counting statement)"
 	l := c.L
 	kinds := l.recordKinds()
 
 	// ---- R1 transition table
 	sas := l.stateAssignments(kinds)
+	floorAdj := 0
 	for _, sa := range sas {
 		c.Analysed(fnName(sa.fn))
+		if !isConstruction(sa) && sa.valPar != nil && isNewFunc(sa.fn) {
+			// a new helper shared by several transitions assigns whatever state it is handed: which prior states go
+			// with which new state is decided per caller on the pinned tree's functions, not for the merged helper
+			nsites := len(l.callSitesOf(sa.fn))
+			if nsites > 1 {
+				c.Info("R1", sa.rk.name+".State assigned from a parameter in the new helper "+fnName(sa.fn)+" ("+itoa(nsites)+" callers): transitions not decided", sa.st.Pos(), "value "+sa.valSym)
+				floorAdj += nsites
+				continue
+			}
+		}
 		if isConstruction(sa) {
 			want := sa.rk.byName[initialState[sa.rk.name]]
 			ok := sa.vals != nil && len(sa.vals) == 1 && sa.vals[want]
@@ -445,6 +456,18 @@ func checkC04(c *Check) {
 		if sa.vals == nil {
 			c.Ob("R1", sa.rk.name+".State <- non-constant in "+fnName(sa.fn), sa.st.Pos(), false, "assigned state "+sa.valSym+" is not a resolvable constant at every call site")
 			continue
+		}
+		// a function that closes a record must not itself turn away a record in a live state: its callers (handlers and
+		// escrow hooks, which drop the error) rely on the close taking effect, and whatever stays live stays under a
+		// closed parent
+		if live, isClose := liveStatesIfClose(sa); isClose {
+			miss := ""
+			for _, n := range live {
+				if !sa.own[sa.rk.byName[n]] {
+					miss += n + " "
+				}
+			}
+			c.Ob("R1", "closing "+sa.rk.name+" in "+fnName(sa.fn)+" takes effect from every live state", sa.st.Pos(), miss == "", "the guards of "+fnName(sa.fn)+" refuse a "+sa.rk.name+" that is "+miss+": a close requested through it (also by the escrow hooks, which ignore its error) leaves that record live")
 		}
 		pre := sa.pre
 		// frozen cross-record implication (see DESIGN.md C04-R1): deployment keeper OnBidClosed pauses the group of an
@@ -472,7 +495,7 @@ func checkC04(c *Check) {
 		}
 		c.Ob("R1", inst, sa.st.Pos(), bad == "", "guards admit the transition(s) "+bad+"which the lifecycle forbids; admitted prior states "+sa.rk.setString(pre)+" via "+strings.Join(sa.sites, " ; "))
 	}
-	c.Floor("R1", 14)
+	c.Floor("R1", 14-floorAdj)
 
 	c.handlerEffects(kinds)
 	c.leaseGuards(kinds)
@@ -531,6 +554,8 @@ func (c *Check) refineOnBidClosedQ(kinds map[string]*recKind, sa *stateAssign, q
 func (c *Check) handlerEffects(kinds map[string]*recKind) {
 	l := c.L
 	mk := "x/market/types"
+	// the winner is told from the losing bids (and a manager's lease from another) by Equals: it must compare every field
+	c.idEqualsComplete("R2")
 	// -- CreateLease
 	{
 		fn := l.msgServerMethod("x/market/handler", "CreateLease")
@@ -656,47 +681,7 @@ func (c *Check) handlerEffects(kinds map[string]*recKind) {
 		c.requireOnPaths("R2", "CreateDeployment: one order per group", fn, rets, func(x ssa.CallInstruction) bool { return callIs(x, "CreateOrder", "", "types.GroupID") }, "open group without an order")
 	}
 	// -- market keeper cascade
-	{
-		fn := l.Func("x/market/keeper", "Keeper", "OnGroupClosed")
-		c.Analysed(fnName(fn))
-		// the two callbacks by role: what is handed to the order enumeration and to the bid enumeration (closures,
-		// method values, or closures that call a new helper)
-		var oc, bc *ssa.Function
-		for _, g := range fnAndClosuresDeep(fn) {
-			for _, call := range callsInOwn(g) {
-				a := call.Common().Args
-				if len(a) == 0 {
-					continue
-				}
-				switch {
-				case callIs(call, "WithOrdersForGroup", "", "types.GroupID"):
-					oc = callbackFunc(a[len(a)-1])
-				case callIs(call, "WithBidsForOrder", "", "types.OrderID"):
-					bc = callbackFunc(a[len(a)-1])
-				}
-			}
-		}
-		if oc == nil || bc == nil {
-			c.Fail("OnGroupClosed: order / bid enumeration callbacks not found")
-		}
-		c.requireOnPaths("R2", "group cascade: orders of the group enumerated", fn, successReturns(fn), func(x ssa.CallInstruction) bool { return callIs(x, "WithOrdersForGroup", "", "types.GroupID") }, "")
-		c.requireOnPaths("R2", "group cascade: every order -> closed", oc, successReturns(oc), func(x ssa.CallInstruction) bool { return callIs(x, "OnOrderClosed", "", "types.Order") }, "order stays live under a closed/paused group")
-		c.requireOnPaths("R2", "group cascade: bids of every order enumerated", oc, successReturns(oc), func(x ssa.CallInstruction) bool { return callIs(x, "WithBidsForOrder", "", "types.OrderID") }, "")
-		c.requireOnPaths("R2", "group cascade: every bid -> closed", bc, successReturns(bc), func(x ssa.CallInstruction) bool { return callIs(x, "OnBidClosed", "", "types.Bid") }, "bid stays live under a closed/paused group")
-		// lease: if GetLease found -> OnLeaseClosed + PaymentClose
-		leaseFound := func(f []Atom) bool {
-			for _, a := range f {
-				if a.Op == "true" {
-					if cv, k := callOf(a.X); cv != nil && k == 1 && calleeMethod(cv) == "GetLease" {
-						return true
-					}
-				}
-			}
-			return false
-		}
-		c.requireWhen("R2", "group cascade: existing lease -> closed", bc, leaseFound, func(x ssa.CallInstruction) bool { return callIs(x, "OnLeaseClosed", "", "types.Lease") }, "lease stays active under a closed/paused group")
-		c.requireWhen("R2", "group cascade: existing lease's payment closed", bc, leaseFound, func(x ssa.CallInstruction) bool { return callIs(x, "PaymentClose", "EscrowKeeper") }, "payment keeps streaming for a closed lease")
-	}
+	c.groupCascade("R2")
 	// -- hooks
 	{
 		fn := l.Func("x/market/hooks", "hooks", "OnEscrowAccountClosed")
@@ -1162,4 +1147,83 @@ func alwaysFalse(v ssa.Value, depth int) bool {
 		}
 	}
 	return false
+}
+
+// liveStatesIfClose: when every state sa assigns is a terminal one of its record kind, the live states of that kind.
+func liveStatesIfClose(sa *stateAssign) ([]string, bool) {
+	terminal := map[string][]string{
+		"Group":      {"GroupClosed", "GroupInsufficientFunds"},
+		"Order":      {"OrderClosed"},
+		"Bid":        {"BidClosed"},
+		"Lease":      {"LeaseClosed", "LeaseInsufficientFunds"},
+		"Deployment": {"DeploymentClosed"},
+	}
+	live := map[string][]string{
+		"Group":      {"GroupOpen", "GroupPaused"},
+		"Order":      {"OrderOpen", "OrderActive"},
+		"Bid":        {"BidOpen", "BidActive"},
+		"Lease":      {"LeaseActive"},
+		"Deployment": {"DeploymentActive"},
+	}
+	if len(sa.vals) == 0 {
+		return nil, false
+	}
+	for v := range sa.vals {
+		ok := false
+		for _, n := range terminal[sa.rk.name] {
+			if sa.rk.byName[n] == v {
+				ok = true
+			}
+		}
+		if !ok {
+			return nil, false
+		}
+	}
+	return live[sa.rk.name], true
+}
+
+// groupCascade: closing (or pausing) a group closes every order of the group, every bid of those orders and, where
+// a bid has a lease, that lease and its payment stream (shared by C04-R2 and C05-R1: a lease left active, or a
+// payment left open, under a closed bid keeps charging / never records the closure).
+func (c *Check) groupCascade(rule string) {
+	l := c.L
+	fn := l.Func("x/market/keeper", "Keeper", "OnGroupClosed")
+	c.Analysed(fnName(fn))
+	// the two callbacks by role: what is handed to the order enumeration and to the bid enumeration (closures,
+	// method values, or closures that call a new helper)
+	var oc, bc *ssa.Function
+	for _, g := range fnAndClosuresDeep(fn) {
+		for _, call := range callsInOwn(g) {
+			a := call.Common().Args
+			if len(a) == 0 {
+				continue
+			}
+			switch {
+			case callIs(call, "WithOrdersForGroup", "", "types.GroupID"):
+				oc = callbackFunc(a[len(a)-1])
+			case callIs(call, "WithBidsForOrder", "", "types.OrderID"):
+				bc = callbackFunc(a[len(a)-1])
+			}
+		}
+	}
+	if oc == nil || bc == nil {
+		c.Fail("OnGroupClosed: order / bid enumeration callbacks not found")
+	}
+	c.requireOnPaths(rule, "group cascade: orders of the group enumerated", fn, successReturns(fn), func(x ssa.CallInstruction) bool { return callIs(x, "WithOrdersForGroup", "", "types.GroupID") }, "")
+	c.requireOnPaths(rule, "group cascade: every order -> closed", oc, successReturns(oc), func(x ssa.CallInstruction) bool { return callIs(x, "OnOrderClosed", "", "types.Order") }, "order stays live under a closed/paused group")
+	c.requireOnPaths(rule, "group cascade: bids of every order enumerated", oc, successReturns(oc), func(x ssa.CallInstruction) bool { return callIs(x, "WithBidsForOrder", "", "types.OrderID") }, "")
+	c.requireOnPaths(rule, "group cascade: every bid -> closed", bc, successReturns(bc), func(x ssa.CallInstruction) bool { return callIs(x, "OnBidClosed", "", "types.Bid") }, "bid stays live under a closed/paused group")
+	// lease: if GetLease found -> OnLeaseClosed + PaymentClose
+	leaseFound := func(f []Atom) bool {
+		for _, a := range f {
+			if a.Op == "true" {
+				if cv, k := callOf(a.X); cv != nil && k == 1 && calleeMethod(cv) == "GetLease" {
+					return true
+				}
+			}
+		}
+		return false
+	}
+	c.requireWhen(rule, "group cascade: existing lease -> closed", bc, leaseFound, func(x ssa.CallInstruction) bool { return callIs(x, "OnLeaseClosed", "", "types.Lease") }, "lease stays active under a closed/paused group")
+	c.requireWhen(rule, "group cascade: existing lease's payment closed", bc, leaseFound, func(x ssa.CallInstruction) bool { return callIs(x, "PaymentClose", "EscrowKeeper") }, "payment keeps streaming for a closed lease")
 }
